@@ -32,6 +32,7 @@ def shards(tier):
         {"name": "big.np.jit", "mode": "jit", "backend": "np", "fn": "big", "n": 20 if q else 400},
         {"name": "big.np.interp", "mode": "interp", "backend": "np", "fn": "big", "n": 4 if q else 40},
         {"name": "big.torch", "mode": "jit", "backend": "torch", "fn": "big", "n": 8 if q else 150},
+        {"name": "forms.torch", "mode": "jit", "backend": "torch", "fn": "rand", "n": 400 if q else 8000, "chain": 100 if q else 1000, "forms": 1},
     ]
     if not q:
         for k in range(6):
